@@ -44,6 +44,7 @@ var (
 	errRefNoTerm    = errors.New("ref: garbage terminator not found")
 	errRefAuth      = errors.New("ref: authentication failed")
 	errRefCanonical = errors.New("ref: peer ciphertext differs from canonical encryption")
+	errRefTooLong   = errors.New("ref: contents longer than 2^24 - 1 bytes")
 )
 
 // refLenCipher is FSChaCha20: term <<secret, role, "L", epoch>> with the
@@ -440,6 +441,9 @@ func (r *Ref) Scan() error {
 // Send is the spec's Send (V2EncPacket): AAD = own garbage on the first packet
 // after the terminator only.
 func (r *Ref) Send(content []byte, ignore bool) ([]byte, error) {
+	if len(content) > 1<<24-1 {
+		return nil, errRefTooLong // SendRefused: nothing changes
+	}
 	var aad []byte
 	if !r.sentFirst {
 		aad = r.garbage
